@@ -189,7 +189,7 @@ def extra_checks(rng, tier, notes):
                 warnings.simplefilter("ignore")
                 r = g.transform(da, "Z", target, **kw)
                 # the bounds the method works on
-                tdb = td if "zo" in td.dims else g.interp(td, "Z", boundary="extend")
+                tdb = td if "zo" in td.dims else g.interp(td, "Z", to="outer", boundary="extend")
             newdim = r.dims[-1]
             lo, hi = min(case["levels"]), max(case["levels"])
             tot_out = r.sum(newdim)
